@@ -323,6 +323,7 @@ func autoVarNameOf(c *spec.Cmd, p *spec.Program) string {
 
 func runC16(ctx *h.Ctx) int {
 	prof := profFull()
+	prof.PFormat = 0.3            // format() calls whose parameters stand on later lines than the string
 	prof.NoSharedResultVar = true // the monitor finds an AutoVar operand's source construct through its result var
 	// string literals with line breaks INSIDE the quotes: every marker after them must still count lines right
 	prof.TextPool = []string{"Hello", "Bye now", "A b c", "Prize!", "x", "two lines\n      of text", "trailing break\n", "\n  leading break", "three\nlines\r\n\tof text"}
